@@ -24,14 +24,23 @@ def client_op(kind, variant, who):
     if variant == "subabs" and kind == "set":
         # the document does not exist at first: a plain write creates it while sub-document writers are at work
         return {"op": "Add", "coll": COLL, "key": KEY, "body": "J1", "h": "h2" if who == "p2" else ""}
-    if variant in ("subdoc", "subabs"):
+    if variant == "subdel" and kind in ("remove", "set"):
+        # sub-document writers race with a deletion / a replacement of the whole document
+        if kind == "remove":
+            return {"op": "Delete", "coll": COLL, "key": KEY, "h": "h2" if who == "p2" else ""}
+        return {"op": "Set", "coll": COLL, "key": KEY, "body": "J2", "h": "h2" if who == "p2" else ""}
+    if variant == "kvexp" and kind == "update":
+        # the callback keeps the body and asks for a new expiry only
+        return {"op": "Update", "coll": COLL, "key": KEY, "cb": "setexp"}
+    if variant in ("subdoc", "subabs", "subdel"):
         path = {"p1": "a", "p2": "n", "p3": "v"}[who]
         if variant == "subabs" and kind == "incr":
             # (SubdocInsert refuses a missing document on the strength of its read: where that refusal is linearised is
             # not what the replayed history records, so the absent-document variant uses writes that never refuse)
             kind = "update"
         if kind == "update":
-            return {"op": "WriteSubDoc", "coll": COLL, "key": KEY, "path": path, "val": "s2", "casc": "zero"}
+            return {"op": "WriteSubDoc", "coll": COLL, "key": KEY, "path": path, "val": "s2", "casc": "zero",
+                    "opt": "raced" if variant == "subdel" else ""}
         if kind == "casw":
             return {"op": "WriteSubDoc", "coll": COLL, "key": KEY, "path": path, "val": "s2", "casc": "snap"}
         if kind == "incr":
@@ -65,7 +74,7 @@ def client_op(kind, variant, who):
 
 def to_case(name, scen, prog, sched, variant, mode="mem"):
     setup = [{"op": "Incr", "coll": COLL, "key": KEY, "amt": 1, "def": 0}]
-    if variant == "subdoc":
+    if variant in ("subdoc", "subdel"):
         setup = [{"op": "Set", "coll": COLL, "key": KEY, "body": "J1"}]
     if variant == "subabs":
         setup = []
@@ -204,7 +213,7 @@ def run(tier, seed, vh, only_paths=None, mode=None):
                 if scen in ("join", "order"):
                     variants = variants + ["kv2"]
                 if scen in ("race", "race3"):
-                    variants = ["kv", "subdoc", "subabs", "xattr", "xtomb", "kvopt", "kvadd"]
+                    variants = ["kv", "subdoc", "subabs", "subdel", "xattr", "xtomb", "kvopt", "kvadd", "kvexp"]
                 for v in variants:
                     if v == "kvopt" and not set(sc["prog"].values()) & {"set", "incr"}:
                         continue
@@ -213,6 +222,11 @@ def run(tier, seed, vh, only_paths=None, mode=None):
                     if v == "subabs" and not (set(sc["prog"].values()) <= {"update", "casw", "incr", "set"} and set(sc["prog"].values()) & {"update", "incr"}):
                         continue
                     if v == "subdoc" and not set(sc["prog"].values()) <= {"update", "casw", "incr"}:
+                        continue
+                    if v == "subdel" and not (set(sc["prog"].values()) <= {"update", "casw", "incr", "remove", "set"}
+                                              and set(sc["prog"].values()) & {"remove", "set"} and set(sc["prog"].values()) & {"update", "casw", "incr"}):
+                        continue
+                    if v == "kvexp" and "update" not in sc["prog"].values():
                         continue
                     if v in ("xattr", "xtomb") and not set(sc["prog"].values()) <= {"update", "casw", "set"}:
                         continue
